@@ -200,7 +200,7 @@ let parse_item tok =
                        (String.split_on_char ',' (String.sub part 2 (String.length part - 2)))
           else if String.length part > 2 && String.sub part 0 2 = "c:" then begin
             let (kd, vs) = split_once ':' (String.sub part 2 (String.length part - 2)) in
-            let tag = match kd with "i" -> 0 | "c" -> 1 | "b" -> 2 | _ -> failwith "const kind" in
+            let tag = match kd with "i" -> 0 | "c" -> 1 | "b" -> 2 | "j" -> 3 | "k" -> 4 | _ -> failwith "const kind" in
             consts := Some (tag, List.map (fun t -> let (x, nm) = split_once '=' t in (z_of_string x, dec_name nm))
                                    (String.split_on_char ',' vs))
           end) (String.split_on_char '!' extra)
@@ -212,10 +212,43 @@ let parse_item tok =
 
 let tree_case line =
   match toks line with
-  | attr :: rev :: items ->
+  | attr :: rev :: rest ->
+    let (drop, items) = (match rest with
+      | flt :: items when String.length flt >= 2 && String.sub flt 0 2 = "F:" ->
+        let t = String.sub flt 2 (String.length flt - 2) in
+        ((if t = "-" then None else Some (string_of_bytes (dec_name t))), items)
+      | items -> (None, items)) in
     let items = List.map parse_item (List.filter (fun t -> t <> "") items) in
-    (attr_of_s attr, bool_of_s rev, items)
+    (attr_of_s attr, bool_of_s rev, drop, items)
   | _ -> failwith "tree"
+
+let second_sort attr rev =
+  ((match attr with SKind -> SName | SName -> SKind | SLocation -> SName), not rev)
+
+let contains (hay : string) (needle : string) : bool =
+  let n = String.length needle and h = String.length hay in
+  let rec go i = i + n <= h && (String.sub hay i n = needle || go (i + 1)) in
+  go 0
+
+(* EntryTree::retain with the filter "path does not contain <text>" (not part of C16's claim:
+   only here so that model and implementation sort the same tree) *)
+let rec retain (keep : string -> bool) (parent : string) (ts : tree list) : tree list =
+  List.filter_map (fun t ->
+    let dn = string_of_bytes (display_name t) in
+    let path = if parent = "" then dn else parent ^ "::" ^ dn in
+    match t with
+    | Parent (r, g, ch) ->
+      let ch' = retain keep path ch in
+      if ch' = [] then None else Some (Parent (r, g, ch'))
+    | Leaf (_, _, _, _, None) -> if keep path then Some t else None
+    | Leaf (a, n, c, l, Some args) ->
+      let args' = List.filter (fun arg -> keep (path ^ "::" ^ string_of_bytes arg)) args in
+      if args' = [] then None else Some (Leaf (a, n, c, l, Some args'))) ts
+
+let retained drop forest =
+  match drop with
+  | None -> forest
+  | Some t -> retain (fun p -> not (contains p t)) "" forest
 
 (* the unsorted forest, built like tree_dump does *)
 let build_forest items =
@@ -251,11 +284,16 @@ let dump_s forest =
      | Some [] -> ":a:%0"
      | Some l -> ":a:" ^ String.concat "," (List.map enc2 l))) rows)
 
-let tree line =
-  let (attr, rev, items) = tree_case line in
-  match sort_forest_dec attr rev (build_forest items) with
+let sorted_dump attr rev forest =
+  match sort_forest_dec attr rev forest with
   | Ok f -> dump_s f
   | Panic p -> "panic " ^ string_of_panic p
+
+let tree line =
+  let (attr, rev, drop, items) = tree_case line in
+  let forest = retained drop (build_forest items) in
+  let (attr2, rev2) = second_sort attr rev in
+  sorted_dump attr rev forest ^ " || " ^ sorted_dump attr2 rev2 forest
 
 (* parse the implementation's dump back into nodes and lay it over the unsorted forest *)
 type dnode = { dk : string; dname : n list; dargs : n list list option; mutable dch : dnode list }
@@ -301,17 +339,33 @@ let rec overlay (orig : tree list) (out : dnode list) : tree list =
        | Leaf (a, n, c, l, _) -> Leaf (a, n, c, l, nd.dargs)
        | Parent (r, g, ch) -> Parent (r, g, overlay ch nd.dch))) out
 
+let split_two (i : string) : (string * string) option =
+  let sep = " || " in
+  let n = String.length sep and h = String.length i in
+  let rec go k = if k + n > h then None else if String.sub i k n = sep then Some k else go (k + 1) in
+  match go 0 with
+  | Some k -> Some (String.sub i 0 k, String.sub i (k + n) (h - k - n))
+  | None -> None
+
 let tree_check line =
   let (c, i) = split_sb line in
-  let (attr, rev, items) = tree_case c in
-  if String.length i >= 5 && String.sub i 0 5 = "panic" then verdict false ("outcome:" ^ i)
-  else if String.length i >= 5 && String.sub i 0 5 = "crash" then verdict false ("outcome:" ^ i)
-  else begin
-    let orig = build_forest items in
-    match (try Ok (overlay orig (parse_dump i)) with Mismatch m -> Panic Other | Failure _ -> Panic Other) with
-    | Ok out -> verdict (forest_sb_dec attr rev orig out) "siblings-or-arguments-not-in-the-specified-order"
-    | Panic _ -> verdict false "entry-lost-duplicated-or-moved-to-another-parent"
-  end
+  let (attr, rev, drop, items) = tree_case c in
+  match split_two i with
+  | None -> verdict false ("outcome:" ^ i)
+  | Some (d1, d2) ->
+    let orig = retained drop (build_forest items) in
+    let (attr2, rev2) = second_sort attr rev in
+    let part which a r d =
+      if String.length d >= 5 && String.sub d 0 5 = "panic" then Some ("outcome:" ^ d)
+      else match (try Ok (overlay orig (parse_dump d)) with Mismatch _ -> Panic Other | Failure _ -> Panic Other) with
+        | Ok out -> if forest_sb_dec a r orig out then None
+                    else Some (which ^ "-sort:siblings-or-arguments-not-in-the-specified-order")
+        | Panic _ -> Some (which ^ "-sort:entry-lost-duplicated-or-moved-to-another-parent") in
+    (match part "first" attr rev d1 with
+     | Some why -> verdict false why
+     | None -> (match part "second" attr2 rev2 d2 with
+                | Some why -> verdict false why
+                | None -> verdict true ""))
 
 let dispatch mode line =
   match mode with
